@@ -14,8 +14,11 @@
 (*                                       = Rate(db, p, s) for all four slots   *)
 (*   P_C27_Map      set / delete succeed and change exactly their own key;    *)
 (*                  restart changes nothing                                   *)
-(* Amounts and premiums exceed TLC's 32-bit integers: they are little-endian  *)
-(* sequences of base-1000 limbs, multiplied symbolically below.               *)
+(* Amounts (any uint64) and premiums exceed TLC's 32-bit integers: they are   *)
+(* little-endian sequences of base-1000 limbs, multiplied symbolically below. *)
+(* The code computes the product with arbitrary precision and saturates the   *)
+(* quotient at the int64 bounds (repo commit "fix: compute premiums without   *)
+(* int64 overflow (saturating)"): Compute = Saturate(Premium).                *)
 EXTENDS Integers, Sequences, FiniteSets, TLC
 
 CONSTANTS Peers        \* peers that can have a specific rate, e.g. {"P1", "P2"}
@@ -88,8 +91,16 @@ Premium(amt, rate) ==
     LET prod == Mul(Norm(amt), Abs(rate))
         mag == IF Len(prod) <= 2 THEN <<>> ELSE SubSeq(prod, 3, Len(prod))
     IN [neg |-> rate < 0 /\ mag # <<>>, mag |-> mag]
-P_C27_Compute(db, p, s, amt, got) == got = Premium(amt, Rate(db, p, s))   \* Setting.Compute; got = [neg, mag]
-\* the exact product does not fit a signed 64-bit integer
+\* the answer is an int64: a quotient outside -2^63 .. 2^63-1 is reported as the nearest bound (only possible
+\* for amounts >= 2^63, which no chain can hold; within +-10^6 ppm the quotient never exceeds the amount)
+MaxInt64 == <<807, 775, 854, 36, 372, 223, 9>>     \* 2^63 - 1
+Saturates(amt, rate) == LET q == Premium(amt, rate) IN
+                        IF q.neg THEN q.mag # Two63 /\ Geq(q.mag, Two63) ELSE Geq(q.mag, Two63)
+Compute(amt, rate) == LET q == Premium(amt, rate) IN
+                      IF ~Saturates(amt, rate) THEN q
+                      ELSE IF q.neg THEN [neg |-> TRUE, mag |-> Two63] ELSE [neg |-> FALSE, mag |-> MaxInt64]
+P_C27_Compute(db, p, s, amt, got) == got = Compute(amt, Rate(db, p, s))   \* Setting.Compute; got = [neg, mag]
+\* the exact product amount * rate does not fit a signed 64-bit integer (where the code before the fix wrapped)
 Overflows(amt, rate) == Geq(Mul(Norm(amt), Abs(rate)), Two63)
 
 (* ---- the grid of the pure function: every rate x every amount ---- *)
@@ -99,7 +110,9 @@ GridAmounts == {
     <<789, 456, 123>>, <<0, 0, 100>>, <<0, 0, 0, 0, 1>>,                       \* 10^8 (1 BTC), 10^12
     <<854, 36, 372, 223, 9>>, <<855, 36, 372, 223, 9>>,                         \* floor(2^63 / 10^6) and + 1
     <<477, 685, 203, 337, 922>>, <<478, 685, 203, 337, 922>>,                   \* floor(2^63 / 10^4) and + 1
-    <<0, 0, 0, 0, 100, 2>> }                                                    \* 21 * 10^14 sat = all bitcoin
+    <<0, 0, 0, 0, 100, 2>>,                                                     \* 21 * 10^14 sat = all bitcoin
+    <<807, 775, 854, 36, 372, 223, 9>>, <<808, 775, 854, 36, 372, 223, 9>>,     \* 2^63 - 1, 2^63
+    <<809, 775, 854, 36, 372, 223, 9>>, <<615, 551, 709, 73, 744, 446, 18>> }   \* 2^63 + 1, 2^64 - 1
 
 \* lemmas about the specification's own arithmetic (checked by TLC in PremiumMC)
 LemmaBound    == \A a \in GridAmounts, r \in GridRates : Geq(Norm(a), Premium(a, r).mag)      \* |premium| <= amount
@@ -113,4 +126,15 @@ LemmaSmall    == /\ Premium(<<999, 999>>, 1) = [neg |-> FALSE, mag |-> <<>>]    
                  /\ Premium(<<789, 456, 123>>, 999999) = [neg |-> FALSE, mag |-> <<665, 456, 123>>]
 LemmaOverflow == /\ ~Overflows(<<854, 36, 372, 223, 9>>, 1000000) /\ Overflows(<<855, 36, 372, 223, 9>>, 1000000)
                  /\ ~Overflows(<<0, 0, 0, 0, 100, 2>>, 2000) /\ Overflows(<<0, 0, 0, 0, 100, 2>>, 10000)
+\* the former overflow region is exact; only quotients beyond int64 saturate
+LemmaSaturate == /\ Compute(<<855, 36, 372, 223, 9>>, 1000000) = [neg |-> FALSE, mag |-> <<855, 36, 372, 223, 9>>]
+                 /\ Compute(<<0, 0, 0, 0, 100, 2>>, -1000000) = [neg |-> TRUE, mag |-> <<0, 0, 0, 0, 100, 2>>]
+                 /\ Compute(MaxInt64, 1000000) = [neg |-> FALSE, mag |-> MaxInt64]
+                 /\ Compute(Two63, 1000000) = [neg |-> FALSE, mag |-> MaxInt64]                 \* 2^63 -> saturated
+                 /\ Compute(Two63, -1000000) = [neg |-> TRUE, mag |-> Two63]                    \* -2^63 fits
+                 /\ Compute(<<809, 775, 854, 36, 372, 223, 9>>, -1000000) = [neg |-> TRUE, mag |-> Two63]
+                 /\ Compute(<<615, 551, 709, 73, 744, 446, 18>>, 1000000) = [neg |-> FALSE, mag |-> MaxInt64]
+                 /\ Compute(<<615, 551, 709, 73, 744, 446, 18>>, 999999) = [neg |-> FALSE, mag |-> MaxInt64]
+                 /\ Compute(<<615, 551, 709, 73, 744, 446, 18>>, 2000) = [neg |-> FALSE, mag |-> <<103, 419, 147, 488, 893, 36>>]
+                 /\ \A a \in GridAmounts, r \in GridRates : ~Geq(Norm(a), Two63) => Compute(a, r) = Premium(a, r)
 ===============================================================================
